@@ -20,7 +20,7 @@ theorem xorBits_succ (k m : Nat) : xorBits (k + 1) m = (xorBits k m ^^ m.testBit
   generalize m.testBit k = b
   induction (List.range k) generalizing b with
   | nil => simp
-  | cons a l ih => simp only [List.foldr_cons]; rw [ih]; simp [Bool.xor_assoc]
+  | cons a l ih => simp only [List.foldr_cons]; rw [ih]; simp
 
 theorem xorBits_xor (k a b : Nat) : xorBits k (a ^^^ b) = (xorBits k a ^^ xorBits k b) := by
   induction k with
@@ -34,16 +34,18 @@ theorem xorBits_add (s t m : Nat) : xorBits (s + t) m = (xorBits s m ^^ xorBits 
   | zero => simp [xorBits_zero]
   | succ t ih =>
     rw [← Nat.add_assoc, xorBits_succ, ih, xorBits_succ, Nat.testBit_shiftRight]
-    simp [Bool.xor_assoc]
+    simp
 
 theorem parityFold_eq (l m : Nat) : parityFold l m = xorBits (2 ^ l) m := by
   induction l generalizing m with
-  | zero => simp [parityFold, xorBits_succ, xorBits_zero]
+  | zero =>
+    have : xorBits 1 m = (xorBits 0 m ^^ m.testBit 0) := xorBits_succ 0 m
+    rw [parityFold, pow_zero, this, xorBits_zero]; simp
   | succ l ih =>
     rw [parityFold, ih, xorBits_xor, pow_succ, Nat.mul_two, xorBits_add]
 
 theorem par_eq (m : Nat) : par m = xorBits 32 m := by
-  rw [par, parityFold_eq]
+  rw [par, parityFold_eq]; norm_num
 
 @[simp] theorem par_zero : par 0 = false := by decide
 
@@ -75,7 +77,7 @@ theorem xorBits_bit {k q : Nat} (h : q < k) : xorBits k (bit q) = true := by
             simp; omega
         exact this q (le_refl q)
       have : (bit q).testBit q = true := by
-        simp [bit, Nat.one_shiftLeft, Nat.testBit_two_pow]
+        simp [bit, Nat.one_shiftLeft]
       simp [h0, this]
 
 theorem par_bit {q : Nat} (h : q < 32) : par (bit q) = true := by
